@@ -1,13 +1,16 @@
 /-
   C10 — hashes read through tiles are authenticated against the tree head.
   Property theorems only; helpers in Proofs/TileBasic.lean, Proofs/TlogTH.lean.
-  The deep theorems (plan_parents_first, honest_reads_true, newTiles_sufficient, readHashes_authenticated)
-  are stated in lean/PENDING.md.
+  The deep theorems (readHashes_authenticated, error_saves_nothing, honest_reads_true, plan_terminates,
+  plan_parents_first, newTiles_sufficient, tileForIndex_spec) are proved in Proofs/TileAuth*.lean on top of the C09
+  store invariant (Proofs/TlogStore*.lean).
 -/
 import ModVerif.Model.Tile
 import ModVerif.Proofs.TileBasic
 import ModVerif.Proofs.TlogTH
 import ModVerif.Proofs.TilePath
+import ModVerif.Proofs.TileAuthNew
+import ModVerif.Proofs.TileAuthPub
 namespace ModVerif.Props.C10
 open ModVerif ModVerif.Tlog ModVerif.Tile ModVerif.TlogTH
 
@@ -79,5 +82,196 @@ theorem tilePath_injective (t u : Tile) (hh : 1 ≤ t.h ∧ t.h ≤ 30) (hw : 1 
 /-- the documented example: Tile{H: 3, L: 4, N: 1234067, W: 1} ↔ tile/3/4/x001/x234/067.p/1 -/
 example : tilePath ⟨3, 4, 1234067, 1, false⟩ = B "tile/3/4/x001/x234/067.p/1" ∧
     parseTilePath (B "tile/3/4/x001/x234/067.p/1") = some ⟨3, 4, 1234067, 1, false⟩ := by decide +kernel
+
+/-! ### reading through tiles (Proofs/TileAuth*.lean)
+
+`H` is an arbitrary hash type, `leaf`/`node`/`empty` arbitrary hash functions; `D` the records, `st` the dense store
+`buildStore` produces for them (it satisfies the C09 invariant `TlogStore.StoreOK`), the tree head is the true one
+(`N = D.length`, `th = MTH (D.map leaf)`), `D.length < 2^62` (the int64 range of the layout functions).
+The true stored hashes of positions `idx` are `idx.mapM (st[·]?)`; the true tile is `trueTile st t`. -/
+
+section
+variable {H : Type} [DecidableEq H] (leaf : Bytes → H) (node : H → H → H) (empty : H)
+
+/-- ★ **readHashes_authenticated** (collision freedom of NodeHash).  Against ANY tile server: everything `ReadHashes` hands to
+    SaveTiles is byte-identical to the true tile, and if it returns hashes they are the true stored hashes.
+    (False before fix 939e2a3: `C10_fixed_rejects_dedup_gap` is the regression witness.) -/
+theorem readHashes_authenticated (D : List Bytes) (st : List H) (hst : buildStore leaf node D = .ok st)
+    (hR : D.length < 2 ^ 62) (hcf : ∀ a b c d : H, node a b = node c d → a = c ∧ b = d)
+    (h : Nat) (hh : 1 ≤ h) (idx : List Nat) (serve : Tile → Option (List H)) :
+    (∀ hs, (readHashes node D.length (RFC6962.mth node empty (D.map leaf)) h idx serve).result = .ok hs →
+        idx.mapM (st[·]?) = some hs) ∧
+    (∀ sv, (readHashes node D.length (RFC6962.mth node empty (D.map leaf)) h idx serve).saved = some sv →
+        ∀ td ∈ sv, trueTile st td.1 = some td.2) := by
+  have hok := TlogStore.storeOK_of_buildStore leaf node empty D (by omega) st hst
+  have := TileAuth.readHashes_authenticated leaf node empty D st hok hR hcf h hh idx serve
+  exact ⟨this.2, this.1⟩
+
+/-- the same over any store satisfying the C09 store invariant (the hypothesis `StoreOK` in the shape of PENDING.md) -/
+theorem readHashes_authenticated_of_storeOK (D : List Bytes) (st : List H)
+    (hok : st.length = Tlog.S D.length ∧ ∀ p l k : Nat, (RFC6962.layout D.length)[p]? = some (l, k) →
+      st[p]? = some (RFC6962.mth node empty (RFC6962.leavesOf (D.map leaf) l k)))
+    (hR : D.length < 2 ^ 62) (hcf : ∀ a b c d : H, node a b = node c d → a = c ∧ b = d)
+    (h : Nat) (hh : 1 ≤ h) (idx : List Nat) (serve : Tile → Option (List H)) :
+    (∀ hs, (readHashes node D.length (RFC6962.mth node empty (D.map leaf)) h idx serve).result = .ok hs →
+        idx.mapM (st[·]?) = some hs) ∧
+    (∀ sv, (readHashes node D.length (RFC6962.mth node empty (D.map leaf)) h idx serve).saved = some sv →
+        ∀ td ∈ sv, trueTile st td.1 = some td.2) := by
+  have := TileAuth.readHashes_authenticated leaf node empty D st hok hR hcf h hh idx serve
+  exact ⟨this.2, this.1⟩
+
+/-- ★ an error is only ever raised before SaveTiles: when `ReadHashes` fails nothing has been handed to the cache -/
+theorem error_saves_nothing (D : List Bytes) (st : List H) (hst : buildStore leaf node D = .ok st)
+    (hR : D.length < 2 ^ 62) (hcf : ∀ a b c d : H, node a b = node c d → a = c ∧ b = d)
+    (h : Nat) (h1 : 1 ≤ h) (h2 : h ≤ 30) (idx : List Nat) (serve : Tile → Option (List H)) (e : Err)
+    (herr : (readHashes node D.length (RFC6962.mth node empty (D.map leaf)) h idx serve).result = .error e) :
+    (readHashes node D.length (RFC6962.mth node empty (D.map leaf)) h idx serve).saved = none :=
+  TileAuth.error_saves_nothing leaf node empty D st
+    (TlogStore.storeOK_of_buildStore leaf node empty D (by omega) st hst) hR hcf h h1 h2 idx serve e herr
+
+/-- ★ **honest_reads_true**.  Tiles served honestly: for every non-empty tree, tile height `1 ≤ h ≤ 30` and request inside the
+    tree, the plan succeeds, every check passes (no "bad math" return is reachable), the result is the list of true stored
+    hashes and SaveTiles receives exactly the planned tiles with their true contents.  (No collision-freedom hypothesis.) -/
+theorem honest_reads_true (D : List Bytes) (st : List H) (hst : buildStore leaf node D = .ok st)
+    (hR : D.length < 2 ^ 62) (hpos : 0 < D.length) (h : Nat) (h1 : 1 ≤ h) (h2 : h ≤ 30) (idx : List Nat)
+    (hidx : ∀ x ∈ idx, x < storedHashIndex 0 D.length) :
+    ∃ p data hs, plan h D.length idx = .ok p ∧ p.tiles.mapM (trueTile st) = some data ∧
+      idx.mapM (st[·]?) = some hs ∧
+      (readHashes node D.length (RFC6962.mth node empty (D.map leaf)) h idx (trueTile st)).saved =
+        some (p.tiles.zip data) ∧
+      (readHashes node D.length (RFC6962.mth node empty (D.map leaf)) h idx (trueTile st)).result = .ok hs :=
+  TileAuth.honest_reads_true leaf node empty D st
+    (TlogStore.storeOK_of_buildStore leaf node empty D (by omega) st hst) hR hpos h h1 h2 idx hidx
+
+/-- ★ **published_reads_true** ("the tiles a publisher is told to publish for any growth step are sufficient for that").
+    The log grows along `0 = n₀ ≤ n₁ ≤ … ≤ n_k = N` (the list `ns`); at step `(a, b)` the publisher writes the tiles
+    `NewTiles(h, a, b)` with the contents they have in the log of the first `b` records.  A server that returns, for every tile
+    the reader plans, the content it had when it was published lets `ReadHashes` on tree `N` succeed with the true stored hashes. -/
+theorem published_reads_true (D : List Bytes) (st : List H) (hst : buildStore leaf node D = .ok st)
+    (hR : D.length < 2 ^ 62) (hpos : 0 < D.length) (h : Nat) (h1 : 1 ≤ h) (h2 : h ≤ 30)
+    (ns : List Nat) (hs : ns.Pairwise (· ≤ ·)) (h0 : ns.head? = some 0) (hl : ns.getLast? = some D.length)
+    (idx : List Nat) (hidx : ∀ x ∈ idx, x < storedHashIndex 0 D.length) (serve : Tile → Option (List H))
+    (hserve : ∀ p, plan h D.length idx = .ok p → ∀ t ∈ p.tiles, ∀ a b ts stb, (a, b) ∈ ns.zip ns.tail →
+      newTiles h a b = .ok ts → t ∈ ts → buildStore leaf node (D.take b) = .ok stb → serve t = trueTile stb t) :
+    ∃ hs, idx.mapM (st[·]?) = some hs ∧
+      (readHashes node D.length (RFC6962.mth node empty (D.map leaf)) h idx serve).result = .ok hs := by
+  have hok := TlogStore.storeOK_of_buildStore leaf node empty D (by omega) st hst
+  have hcongr := TileAuth.readHashes_congr node D.length (RFC6962.mth node empty (D.map leaf)) h idx serve (trueTile st) (by
+    intro p hp t ht
+    obtain ⟨a, b, ts, stb, m1, m2, m3, m4, m5⟩ :=
+      TileAuth.published_tiles_true leaf node empty D st hok hR h h1 ns hs h0 hl idx p hp t ht
+    rw [hserve p hp t ht a b ts stb m1 m2 m3 m4, m5])
+  obtain ⟨p, data, hs', _, _, e3, _, e5⟩ := TileAuth.honest_reads_true leaf node empty D st hok hR hpos h h1 h2 idx hidx
+  exact ⟨hs', e3, by rw [hcongr]; exact e5⟩
+
+omit [DecidableEq H] in
+/-- the coordinate/width and content halves of the above, tile by tile -/
+theorem published_tiles_true (D : List Bytes) (st : List H) (hst : buildStore leaf node D = .ok st)
+    (hR : D.length < 2 ^ 62) (h : Nat) (hh : 1 ≤ h) (ns : List Nat) (hs : ns.Pairwise (· ≤ ·))
+    (h0 : ns.head? = some 0) (hl : ns.getLast? = some D.length) (idx : List Nat) (p : Plan)
+    (hp : plan h D.length idx = .ok p) :
+    ∀ t ∈ p.tiles, ∃ a b ts stb, (a, b) ∈ ns.zip ns.tail ∧ newTiles h a b = .ok ts ∧ t ∈ ts ∧
+      buildStore leaf node (D.take b) = .ok stb ∧ trueTile stb t = trueTile st t :=
+  TileAuth.published_tiles_true leaf node (leaf []) D st
+    (TlogStore.storeOK_of_buildStore leaf node (leaf []) D (by omega) st hst) hR h hh ns hs h0 hl idx p hp
+
+/-- ★ **tileForIndex_spec**: the tile, and the byte range inside it, that `tileForIndex` names for a stored-hash position
+    with coordinates `(lv, k)`: tile level `lv / h`, `2^(lv % h)` hashes, … -/
+theorem tileForIndex_spec (h x lv k : Nat) (hh : 1 ≤ h) (hs : splitStoredHashIndex x = .ok (lv, k)) :
+    ∃ t s e, tileForIndex h x = .ok (t, s, e) ∧ t.h = h ∧ t.l = lv / h ∧ t.n = k / 2 ^ (h - lv % h) ∧ t.w = e ∧
+      t.data = false ∧ e = s + 2 ^ (lv % h) ∧ e ≤ 2 ^ h ∧ t.n * 2 ^ h + s = k * 2 ^ (lv % h) := by
+  refine ⟨_, _, _, TileAuth.tileForIndex_eq h x lv k (by omega) hs, rfl, rfl, rfl, rfl, rfl, ?_, ?_, ?_⟩
+  · rw [Nat.add_mul]; omega
+  · have := TileAuth.ts_le h lv k (by omega)
+    simp only [TileAuth.ts] at this
+    rw [Nat.add_mul]; omega
+  · exact TileAuth.tnum_ts h lv k (by omega)
+
+omit [DecidableEq H] in
+/-- … and `tileHash` of that range of the true tile is the stored hash (so `HashFromTile` on true tiles returns true hashes) -/
+theorem tileForIndex_spec_hash (D : List Bytes) (st : List H) (hst : buildStore leaf node D = .ok st)
+    (hR : D.length < 2 ^ 62) (h : Nat) (h1 : 1 ≤ h) (h2 : h ≤ 30) (x : Nat) (hx : x < storedHashIndex 0 D.length) :
+    ∃ t s e d v, tileForIndex h x = .ok (t, s, e) ∧ trueTile st (tileParent t 0 D.length) = some d ∧
+      tileHash node ((d.take e).drop s) = .ok v ∧ st[x]? = some v ∧
+      hashFromTile node (tileParent t 0 D.length) d x = .ok v := by
+  have hok := TlogStore.storeOK_of_buildStore leaf node (leaf []) D (by omega) st hst
+  have env := TileAuth.env_of_storeOK leaf node (leaf []) D st hok hR
+  obtain ⟨c, c1, c2, c3⟩ := TileAuth.env_split_of_lt node _ D.length st env x hx
+  have hh : 0 < h := by omega
+  obtain ⟨t0, s, e, a1, a2⟩ := TileAuth.tileForIndex_home h D.length x c hh c1
+  have a1' := TileAuth.tileForIndex_eq h x c.1 c.2 hh c1
+  rw [a1] at a1'
+  simp only [Except.ok.injEq, Prod.mk.injEq] at a1'
+  obtain ⟨_, es, ee⟩ := a1'
+  have hnz := TileAuth.home_nonzero h D.length c hh c2
+  obtain ⟨f1, f2, f3, f4, f5⟩ := TileAuth.stdTile_fields D.length h (c.1 / h) (TileAuth.tnum h c.1 c.2) hnz
+  rw [← TileAuth.home] at f1 f2 f3 f4 f5
+  have hin := TileAuth.coord_in_tile h D.length c.1 c.2 hh c2
+  have hle := TileAuth.ts_le h c.1 c.2 hh
+  have hp := Nat.two_pow_pos (c.1 % h)
+  have htrue := TileAuth.trueTile_eq node _ D.length st env (TileAuth.home h D.length c) (by rw [f4]; omega)
+    (by rw [f1, f2, f3, f4]; omega)
+  have h10 : TileAuth.ts (TileAuth.home h D.length c).h c.1 c.2 + 2 ^ (c.1 % (TileAuth.home h D.length c).h) ≤
+      (TileAuth.home h D.length c).w := by rw [f1, f4]; omega
+  have hsl := TileAuth.slice_hash node _ D.length env.step (TileAuth.home h D.length c) c.1 c.2 (by omega) c2
+    (by rw [f1, f2]) (by rw [f1, f3]) h10
+  have hlv := TileAuth.lv_lt_63 D.length c.1 c.2 c2 (by omega)
+  have hdiv : c.1 / h ≤ c.1 := Nat.div_le_self _ _
+  have hgood := TileAuth.hashFromTile_good node _ D.length env.step (TileAuth.home h D.length c) x c.1 c.2 c1 c2
+    (by omega) (by omega) f5 (by omega) (by rw [f4, f1]; omega) (by rw [f1, f2]) (by rw [f1, f3]) h10
+  refine ⟨t0, s, e, _, _, a1, by rw [a2]; exact htrue, ?_, by rw [← c3]; exact env.get c.1 c.2 c2, by rw [a2]; exact hgood⟩
+  have e1 : TileAuth.ts (TileAuth.home h D.length c).h c.1 c.2 = s := by rw [f1, es]; rfl
+  have e2 : TileAuth.ts (TileAuth.home h D.length c).h c.1 c.2 + 2 ^ (c.1 % (TileAuth.home h D.length c).h) = e := by
+    rw [f1, ee]; simp only [TileAuth.ts, Nat.add_mul, Nat.one_mul]
+  rw [e2, e1] at hsl
+  exact hsl
+
+end
+
+/-- ★ **plan_terminates**: for every tree below `2^62` records, tile height `h ≥ 1` and request inside the tree, the planning
+    part of ReadHashes succeeds: the code's unbounded walk-up loop terminates (within `N.log2 + 2` steps), the
+    "must be full" `badMath` return and every panic site are unreachable. -/
+theorem plan_terminates (h N : Nat) (hh : 1 ≤ h) (hR : N < 2 ^ 62) (idx : List Nat)
+    (hidx : ∀ x ∈ idx, x < storedHashIndex 0 N) : ∃ p, plan h N idx = .ok p :=
+  TileAuth.plan_terminates h N hh hR idx hidx
+
+/-- ★ **plan_parents_first**: every planned tile from position `nstx` on is full and its parent occurs earlier in the list
+    (and is what the tileOrder map returns for it); the tileOrder map is exactly the position map of the tile list, which has
+    no duplicates and never contains `Tile{}`. -/
+theorem plan_parents_first (h N : Nat) (hh : 1 ≤ h) (hR : N < 2 ^ 62) (idx : List Nat) (p : Plan)
+    (hp : plan h N idx = .ok p) :
+    (∀ (i : Nat) (t : Tile), p.nstx ≤ i → p.tiles[i]? = some t →
+        t.w = 2 ^ h ∧ ∃ j, j < i ∧ p.tiles[j]? = some (tileParent t 1 N) ∧ p.order.lookup (tileParent t 1 N) = some j) ∧
+    (∀ (t : Tile) (j : Nat), p.order.lookup t = some j ↔ p.tiles[j]? = some t) ∧
+    p.tiles.Nodup ∧ Tile.zero ∉ p.tiles ∧ p.nstx ≤ p.tiles.length :=
+  TileAuth.plan_parents_first h N hh hR idx p hp
+
+/-- ★ **newTiles_sufficient**: along any growth sequence `0 = n₀ ≤ n₁ ≤ … ≤ n_k = N` (the list `ns`), every tile that
+    ReadHashes plans to fetch for tree `N` — for any requested indexes — is among `NewTiles(h, n_i, n_{i+1})` of some step,
+    with exactly the planned width; and `NewTiles` never fails. -/
+theorem newTiles_sufficient (h N : Nat) (hh : 1 ≤ h) (hR : N < 2 ^ 62) (ns : List Nat) (hs : ns.Pairwise (· ≤ ·))
+    (h0 : ns.head? = some 0) (hl : ns.getLast? = some N) (idx : List Nat) (p : Plan) (hp : plan h N idx = .ok p) :
+    ∀ t ∈ p.tiles, ∃ a b ts, (a, b) ∈ ns.zip ns.tail ∧ newTiles h a b = .ok ts ∧ t ∈ ts :=
+  TileAuth.newTiles_sufficient h N hh hR ns hs h0 hl idx p hp
+
+/-! ### non-vacuity of the hypotheses (term-algebra hashes; the 7-record example log) -/
+
+/-- every log below `2^64` records has a store (`buildStore` never fails), the term algebra is collision free -/
+example : ∃ st, buildStore TH.leaf TH.node (recs 7) = .ok st ∧ (recs 7).length < 2 ^ 62 ∧ 0 < (recs 7).length ∧
+    (∀ a b c d : TH, TH.node a b = TH.node c d → a = c ∧ b = d) ∧ (∀ x ∈ [0, 5, 10], x < storedHashIndex 0 (recs 7).length) := by
+  obtain ⟨st, h1, _⟩ := TlogStore.buildStore_ok TH.leaf TH.node TH.empty (recs 7) (by decide)
+  exact ⟨st, h1, by decide, by decide, fun a b c d h => by cases h; exact ⟨rfl, rfl⟩, by decide⟩
+
+/-- the failing case of `error_saves_nothing` occurs: the forged tile of the F6 witness makes the read fail -/
+example : ∃ e, (readHashes TH.node 7 (root 7) 2 [0] (evil 7)).result = .error e := by
+  have h := C10_fixed_rejects_dedup_gap.1
+  revert h
+  cases (readHashes TH.node 7 (root 7) 2 [0] (evil 7)).result with
+  | ok _ => simp [isErr]
+  | error e => intro _; exact ⟨e, rfl⟩
+
+/-- a successful plan, a growth sequence, a position with coordinates -/
+example : (∃ p, plan 2 7 [0] = .ok p) ∧ [0, 3, 7].Pairwise (· ≤ ·) ∧ [0, 3, 7].head? = some 0 ∧ [0, 3, 7].getLast? = some 7 ∧
+    splitStoredHashIndex 10 = .ok (0, 6) := ⟨⟨_, rfl⟩, by decide, rfl, rfl, rfl⟩
 
 end ModVerif.Props.C10
